@@ -346,6 +346,57 @@ func c09OnePop(p *Prog, r *Report) {
 		r.Viol("C09.c", kCoreDeleteOld+"#one-pop", p.pos(fi.Decl), "the collector no longer walks IterateBeforeSeq")
 		return
 	}
+	// count-then-pop: the walk only counts the yielded versions (n++) and a second loop, running n times, pops one
+	// front node per iteration. The obligations are then those of the second loop.
+	if cl := countThenPopLoop(fi.Pkg.TypesInfo, scopes, loop); cl != nil {
+		if h := f.loopHeadStmt(cl); h >= 0 {
+			body := cl.(interface{ Pos() token.Pos }).Pos()
+			_ = body
+			var lb *ast.BlockStmt
+			switch x := cl.(type) {
+			case *ast.RangeStmt:
+				lb = x.Body
+			case *ast.ForStmt:
+				lb = x.Body
+			}
+			inB := func(c *ast.CallExpr) bool { return c.Pos() >= lb.Pos() && c.End() <= lb.End() }
+			pops2 := f.Match(func(n *GNode) bool {
+				for _, c := range callsIn(n.Ast, false) {
+					if p.callIs(fi.Pkg, c, "(*internal/model/core.file).PopFront") && inB(c) {
+						return true
+					}
+				}
+				return false
+			})
+			var start []int
+			for _, e := range f.Nodes[h].Succs {
+				if e.Label == 1 {
+					start = append(start, e.To)
+				}
+			}
+			atLeast := len(pops2) > 0 && !f.Reach(start, func(n *GNode) bool { return setOf(pops2)[n.ID] }, nil)[h]
+			atMost := true
+			for _, pn := range pops2 {
+				reach := f.Reach(f.succsOf(pn), func(n *GNode) bool { return n.ID == h }, nil)
+				for _, q := range pops2 {
+					if reach[q] {
+						atMost = false
+					}
+				}
+			}
+			outside := ""
+			for _, id := range f.CallNodes("(*internal/model/core.file).PopFront", "(*internal/model/core.file).PopBack") {
+				for _, c := range callsIn(f.Nodes[id].Ast, false) {
+					if p.callIs(fi.Pkg, c, "(*internal/model/core.file).PopFront", "(*internal/model/core.file).PopBack") && !inB(c) {
+						outside = p.pos(c)
+					}
+				}
+			}
+			r.Check(atLeast && atMost && outside == "", "C09.c", kCoreDeleteOld+"#one-pop", p.pos(loop), "the walk counts the yielded versions and exactly that many front nodes are popped",
+				fmt.Sprintf("the collector does not pop exactly one front node per version the walk yielded (at least one per counted version: %v, at most one: %v, pops elsewhere: %s)", atLeast, atMost, outside))
+			return
+		}
+	}
 	head := f.loopHead(loop)
 	// (judged by the position of the call itself: the parameter binding of a spliced-in helper that is given
 	// the popped node sits at the helper's position)
@@ -1166,4 +1217,39 @@ func arrShapeWith(info *types.Info, e ast.Expr, isArr func(ast.Expr) bool) strin
 		}
 	}
 	return "other(" + types.ExprString(e) + ")"
+}
+
+// countThenPopLoop: when the walk loop only increments one integer counter, the loop that runs that many times
+// (for range n / for i := 0; i < n; i++ / for ; n > 0; n--) in the same scope; nil otherwise.
+func countThenPopLoop(info *types.Info, scopes []*ast.BlockStmt, walk *ast.RangeStmt) ast.Stmt {
+	var counter types.Object
+	for _, st := range walk.Body.List {
+		inc, ok := st.(*ast.IncDecStmt)
+		if !ok || inc.Tok != token.INC {
+			return nil
+		}
+		counter = objOf(info, inc.X)
+	}
+	if counter == nil {
+		return nil
+	}
+	var res ast.Stmt
+	for _, sc := range scopes {
+		ast.Inspect(sc, func(x ast.Node) bool {
+			switch l := x.(type) {
+			case *ast.RangeStmt:
+				if l != walk && objOf(info, l.X) == counter && l.Pos() > walk.End() {
+					res = l
+				}
+			case *ast.ForStmt:
+				if l.Cond != nil && l.Pos() > walk.End() {
+					if be, ok := ast.Unparen(l.Cond).(*ast.BinaryExpr); ok && (objOf(info, be.Y) == counter || objOf(info, be.X) == counter) {
+						res = l
+					}
+				}
+			}
+			return true
+		})
+	}
+	return res
 }
